@@ -5,6 +5,7 @@
 // record:  H <msghex> <chunk,chunk,...> <digest>      message split into chunks for update()
 //          R <m1hex> <m2hex> <mode> <digest>           reuse: mode 0 finalize(m1) then hash m2; 1 update(m1) reset() then m2; 2 like 0 twice
 //          M <keyhex> <msghex> <mac>
+//          L <n> <piece> - <digest>                    message of n bytes (byte i = i & 0xFF) fed in pieces
 #include <nstd/Crypto/Sha256.hpp>
 #include <cstdio>
 #include <cstdlib>
@@ -43,6 +44,14 @@ static std::string recM(const std::vector<unsigned char>& k, const std::vector<u
   Sha256::hmac(ke, k.size(), me, m.size(), d); free(ke); free(me);
   return "M " + hex(k.data(), k.size()) + " " + hex(m.data(), m.size()) + " " + hex(d, 32);
 }
+// very long message: byte i is (i & 0xFF), fed in pieces of 'piece' bytes (a multiple of 256); "L <n> <piece> - <digest>"
+static std::string recL(unsigned long long n, size_t piece) {
+  std::vector<unsigned char> blk(piece); for (size_t i = 0; i < piece; ++i) blk[i] = (unsigned char)(i & 0xFF);
+  Sha256 h; unsigned long long left = n;
+  while (left) { size_t c = left < piece ? (size_t)left : piece; h.update(blk.data(), c); left -= c; }
+  byte d[Sha256::digestSize]; h.finalize(d);
+  return "L " + std::to_string(n) + " " + std::to_string(piece) + " - " + hex(d, 32);
+}
 static std::vector<size_t> splitAt(size_t n, std::vector<size_t> cuts) { std::vector<size_t> c; size_t prev = 0; for (size_t x : cuts) { c.push_back(x - prev); prev = x; } c.push_back(n - prev); return c; }
 
 int main(int argc, char** argv) {
@@ -51,6 +60,7 @@ int main(int argc, char** argv) {
     if (k == "H" && argc >= 5) { std::vector<unsigned char> m = unhex(argv[3]); std::vector<size_t> ch; std::string cs = argv[4]; if (cs != "-") { size_t i = 0; while (i <= cs.size()) { size_t j = cs.find(',', i); if (j == std::string::npos) j = cs.size(); ch.push_back((size_t)atol(cs.substr(i, j - i).c_str())); i = j + 1; } } size_t tot = 0; for (size_t c : ch) tot += c; if (tot != m.size()) { ch.clear(); ch.push_back(m.size()); } puts(recH(m, ch).c_str()); }
     else if (k == "R" && argc >= 6) puts(recR(unhex(argv[3]), unhex(argv[4]), atoi(argv[5])).c_str());
     else if (k == "M" && argc >= 5) puts(recM(unhex(argv[3]), unhex(argv[4])).c_str());
+    else if (k == "L" && argc >= 5) puts(recL(strtoull(argv[3], 0, 10), (size_t)strtoull(argv[4], 0, 10)).c_str());
     else return 2;
     return 0;
   }
@@ -76,6 +86,10 @@ int main(int argc, char** argv) {
   }
   // sampled long messages
   for (int s = 0; s < (thorough ? 150 : 15); ++s) { size_t n = 300 + (size_t)(rnd() % 70000); std::vector<unsigned char> m = content(n, 0); size_t a = (size_t)(rnd() % (n + 1)); puts(recH(m, splitAt(n, {a})).c_str()); }
+  // messages whose bit length needs more than 32 bits (2^29 bytes and beyond); thorough also a byte count beyond 32 bits
+  puts(recL((1ull << 29) + 5, 1 << 20).c_str());
+  if (thorough) { puts(recL((1ull << 29) - 1, 1 << 20).c_str()); puts(recL(1ull << 29, 768).c_str()); puts(recL((1ull << 32) + 3, 1 << 20).c_str()); }
+  fflush(stdout);
   // hasher reuse after finalize / reset
   for (long s = 0; s < (thorough ? 6000 : 800); ++s) { size_t n1 = (rnd() % 2) ? B[rnd() % 20] : (size_t)(rnd() % 200), n2 = (rnd() % 2) ? B[rnd() % 20] : (size_t)(rnd() % 200); puts(recR(content(n1, 0), content(n2, (int)(rnd() % 4)), (int)(rnd() % 3)).c_str()); }
   // hmac: every key length 0..200 x boundary message lengths, plus random pairs
